@@ -16,10 +16,15 @@ BUILTINS = ["log", "hdr", "sl.1000.100000", "gz.5.10.text%2F", "auth.k1"]
 ODD_AUTH = ["auth.%20", "auth.%09%20", "auth.%0A", "auth.k1%20", "auth.%20k1"]
 
 
+# keys with characters that mean something to a shell or a template engine: to the plugin they are plain bytes
+# (VERIF_UNSET_VAR is not set in the environment of the harness)
+LITERAL_AUTH = ["auth.pa%24%24w0rd", "auth.%24%7BVERIF_UNSET_VAR%7D", "auth.%24HOME", "auth.a%24b", "auth.%25s", "auth.%7B%7Bkey%7D%7D", "auth.%5Cn"]
+
+
 def gen_order(rng):
     """a chain of up to 5 built-ins interleaved with numbered probes"""
     k = rng.randint(0, 5)
-    items = [rng.choice(BUILTINS) if rng.random() < 0.9 else rng.choice(ODD_AUTH) for _ in range(k)]
+    items = [rng.choice(BUILTINS) if rng.random() < 0.85 else rng.choice(ODD_AUTH + LITERAL_AUTH) for _ in range(k)]
     chain, pid = [], 0
     for it in items:
         if rng.random() < 0.7:
@@ -29,6 +34,9 @@ def gen_order(rng):
     pid += 1
     chain.append("pr.%d" % pid)
     key = rng.choice(["k1", "k1", "k1", "bad", "-"])
+    lit = [it[5:] for it in items if it in LITERAL_AUTH]
+    if lit and rng.random() < 0.6:
+        key = rng.choice(lit + ["-"])         # the configured key itself, or no key at all
     reqlen = rng.choice([0, 10, 1000, 1001, 5000])
     # a declared body is a body whatever the method
     method = rng.choice(["POST", "POST", "PUT", "GET", "DELETE", "PATCH"]) if reqlen else "GET"
@@ -141,7 +149,7 @@ def front_episode(rng):
     for _ in range(rng.randint(4, 10)):
         key = rng.choice(["k1", "k1", "bad", "-"])
         blen = rng.choice([0, 5, 10, 11, 500])
-        ops.append("id req none none %s %d 0%s" % (key, blen, " upg" if rng.random() < 0.35 else ""))
+        ops.append("id req none none %s %d 0%s" % (key, blen, rng.choice([" upg", " ws"]) if rng.random() < 0.45 else ""))
     return ops
 
 
